@@ -681,21 +681,30 @@ def locals_of(fn):
 
 
 def rename_map(old, new):
-    """locals renamed since the lock was written: same number of declarations, same types, different names at
-    some positions.  Contracts written with the old names are re-bound to the new ones."""
+    """locals renamed since the lock was written: same number of declarations, and some names have disappeared while
+    as many new ones have appeared at the same positions with the same types.  Contracts written with the old names
+    are re-bound to the new ones.  Declarations that merely changed places (same names, another order) are no rename."""
+    from collections import Counter
     if not old or len(old) != len(new):
         return {}
+    removed = Counter(n for n, _ in old) - Counter(n for n, _ in new)
+    added = Counter(n for n, _ in new) - Counter(n for n, _ in old)
+    if not removed or sum(removed.values()) != sum(added.values()):
+        return {}
     m = {}
-    cur = set(n for n, _ in new)
     for (on, ot), (nn, nt) in zip(old, new):
-        if ot != nt:
-            return {}
-        if on != nn:
+        if on == nn:
+            continue
+        if removed[on] > 0 and added[nn] > 0 and ot == nt:
             if on in m and m[on] != nn:
                 return {}
             # (the old name may still exist: a variable that shadowed another one of the same name was renamed; the
             #  contract's name is then re-bound only where the renamed variable is the innermost of the two, see spec_env)
             m[on] = nn
+            removed[on] -= 1
+            added[nn] -= 1
+        else:
+            return {}          # declarations moved around as well: no safe positional pairing
     return m
 
 
